@@ -314,6 +314,178 @@ theorem C03_conflict_skip_counterexample :
     (dbInsert 0 [100, 0]).1 = [100, 101] ∧ scanUpdateDN [100, 0] (dbInsert 0 [100, 0]).1 = [100, 100] := by
   decide
 
+/-! ### embedded structs: which field owns a column (shallowest wins), anonymous = named; database-generated defaults -/
+
+/-- SHALLOWEST WINS, every list of parsed fields: the field that owns column `c` after the registration loop of
+    `ParseWithSpecialTableName` (`FieldsByDBName[c]`, the field Create reads and Scan writes) has this column, and against
+    EVERY permitted field `g` claiming the same column it is strictly shallower (shorter `BindNames`), or equally deep
+    and declared no later — Go's selector rule with gorm's "first appear" tie-break.  In particular an outer field is
+    never shadowed by a member of an embedded struct, in either declaration order. -/
+theorem C03_owner_shallowest {α : Type} [DecidableEq α] (fs : List (PField α)) (c : α) (e : Ent α)
+    (h : assoc c (parseReg fs).byDB = some e) :
+    (fs[e.1]? = some e.2 ∧ e.2.dbName = some c) ∧
+    ∀ (j : Nat) (g : PField α), fs[j]? = some g → g.dbName = some c → g.perm = true →
+      e.2.depth < g.depth ∨ (e.2.depth = g.depth ∧ e.1 ≤ j) := by
+  obtain ⟨hA, _⟩ := parseReg_inv fs
+  have hC := parseReg_invC fs
+  refine ⟨⟨(hA c e h).2.1, (hA c e h).2.2⟩, fun j g hg hc hp => ?_⟩
+  have hjl : j < fs.length := by
+    rcases Nat.lt_or_ge j fs.length with h' | h'
+    · exact h'
+    · rw [List.getElem?_eq_none h'] at hg; cases hg
+  exact hC c e h j g hjl hg hc hp
+
+/-- the `depth` the registration loop compares IS the length of the Go selector path (`BindNames`) of the flattened
+    field, at every nesting level, for anonymous and named embedding alike -/
+theorem flattenE_depth (t : EDecl) : ∀ (path : List String) (pfx : String), ∀ pf ∈ flattenE path pfx t, pf.2.depth = pf.1.length := by
+  induction t with
+  | nil => intro path pfx pf h; simp [flattenE] at h
+  | field n col perm next ih =>
+    intro path pfx pf h
+    simp only [flattenE, List.mem_cons] at h
+    rcases h with rfl | h
+    · simp
+    · exact ih path pfx pf h
+  | embed n a p kids next ihk ihn =>
+    intro path pfx pf h
+    simp only [flattenE, List.mem_append] at h
+    rcases h with h | h
+    · exact ihk _ _ pf h
+    · exact ihn _ _ pf h
+
+/-- ANONYMOUS = NAMED: whether a struct is embedded as a Go anonymous field or as a named field with the `embedded` tag
+    changes nothing in the flattened field list (paths, columns, depths) — hence nothing in column ownership -/
+theorem C03_embed_anonymous_like_named (t : EDecl) (b : Bool) :
+    ∀ (path : List String) (pfx : String), flattenE path pfx (t.setAnon b) = flattenE path pfx t := by
+  induction t with
+  | nil => intro _ _; rfl
+  | field n col perm next ih => intro path pfx; simp [EDecl.setAnon, flattenE, ih]
+  | embed n a p kids next ihk ihn => intro path pfx; simp [EDecl.setAnon, flattenE, ihk, ihn]
+
+theorem C03_embed_owners_anonymous_like_named (t : EDecl) (b : Bool) : embedOwners (t.setAnon b) = embedOwners t := by
+  unfold embedOwners
+  rw [C03_embed_anonymous_like_named]
+
+/-- EMBEDDING TREES: for every struct declaration (any nesting depth, anonymous / named / pointer embedding, prefixes),
+    the flattened field that owns column `c` sits on a selector path that is strictly shorter than the path of every
+    other permitted field with this column, or equally long and declared earlier. -/
+theorem C03_embed_owner_shallowest (t : EDecl) (c : String) (e : Ent String)
+    (h : assoc c (parseReg ((flattenE [] "" t).map (·.2))).byDB = some e) :
+    ∃ p, (flattenE [] "" t)[e.1]? = some (p, e.2) ∧ e.2.dbName = some c ∧
+      ∀ (j : Nat) (q : List String) (g : PField String), (flattenE [] "" t)[j]? = some (q, g) → g.dbName = some c → g.perm = true →
+        p.length < q.length ∨ (p.length = q.length ∧ e.1 ≤ j) := by
+  obtain ⟨⟨h1, h2⟩, h3⟩ := C03_owner_shallowest _ c e h
+  rw [List.getElem?_map] at h1
+  cases hp : (flattenE [] "" t)[e.1]? with
+  | none => rw [hp] at h1; cases h1
+  | some pf =>
+    rw [hp] at h1
+    simp only [Option.map_some, Option.some.injEq] at h1
+    obtain ⟨p, f⟩ := pf
+    simp only at h1
+    subst h1
+    refine ⟨p, rfl, h2, fun j q g hj hc hperm => ?_⟩
+    have hd1 := flattenE_depth t [] "" (p, e.2) (List.mem_of_getElem? hp)
+    have hd2 := flattenE_depth t [] "" (q, g) (List.mem_of_getElem? hj)
+    have := h3 j g (by rw [List.getElem?_map, hj]; rfl) hc hperm
+    simp only at hd1 hd2
+    omega
+
+/-- the schema of the classic shadowing declaration `type Doc struct { Audit; ID uint; Name string }` with
+    `type Audit struct { Name, Note string }`: column `name` belongs to `Doc.Name` (path of length 1), declared AFTER the
+    embedded `Audit.Name` (length 2) — and the same with the outer field declared first -/
+example : embedOwners (.embed "Audit" true "" (.field "Name" (some "name") true (.field "Note" (some "note") true .nil))
+      (.field "ID" (some "id") true (.field "Name" (some "name") true .nil))) =
+    [("name", ["Name"]), ("note", ["Audit", "Note"]), ("id", ["ID"])] := by decide
+example : embedOwners (.field "Name" (some "name") true
+      (.embed "Audit" true "" (.field "Name" (some "name") true (.field "Note" (some "note") true .nil)) .nil)) =
+    [("name", ["Name"]), ("note", ["Audit", "Note"])] := by decide
+
+private theorem memAfter_go (ret : List String) (cs : List CCol) :
+    ∀ (vs : List Int) (gen : Nat → Int) (i : Nat), (∀ c ∈ cs, c.dk.isDB = true → ret.contains c.name = true) →
+      memAfter.go ret cs vs (rowOf.go gen cs vs i) = rowOf.go gen cs vs i := by
+  induction cs with
+  | nil => intro _ _ _ _; rfl
+  | cons c cs ih =>
+    intro vs gen i hall
+    have hrest := ih vs.tail gen (i + 1) (fun x hx => hall x (List.mem_cons_of_mem _ hx))
+    simp only [memAfter.go, rowOf.go, List.headD_cons, List.tail_cons]
+    rw [hrest]
+    congr 1
+    by_cases hr : ret.contains c.name = true
+    · rw [if_pos hr]
+    · rw [if_neg hr]
+      cases hk : c.dk with
+      | none => simp [sentVal, hk]
+      | lit d => simp [sentVal, hk]
+      | db => exact absurd (hall c (List.mem_cons_self) (by simp [hk, DefKind.isDB])) hr
+      | autoPk => exact absurd (hall c (List.mem_cons_self) (by simp [hk, DefKind.isDB])) hr
+
+private theorem mem_fieldsWithDefaultDB (cols : List CCol) (c : CCol) (hc : c ∈ cols) (hd : c.dk.isDB = true) :
+    c.name ∈ fieldsWithDefaultDB cols := by
+  unfold fieldsWithDefaultDB
+  simp only [List.map_append, List.mem_append, List.mem_map, List.mem_filter]
+  cases hk : c.dk with
+  | none => simp [hk, DefKind.isDB] at hd
+  | lit d => simp [hk, DefKind.isDB] at hd
+  | db => exact Or.inl ⟨c, ⟨hc, by simp [hk]⟩, rfl⟩
+  | autoPk => exact Or.inr ⟨c, ⟨hc, by simp [hk]⟩, rfl⟩
+
+/-- DATABASE-GENERATED DEFAULTS ARE ASKED BACK FOR EVERY KEY SHAPE: with a RETURNING-capable dialector the INSERT asks
+    back every column whose value the database may generate — whatever the primary key is (generated, assigned by the
+    application, composite, absent: the key does not occur in the condition). -/
+theorem C03_defaults_returned_every_key_shape (cols : List CCol) (c : CCol) (hc : c ∈ cols) (hd : c.dk.isDB = true) :
+    ∃ l, returningCols true cols = some l ∧ c.name ∈ l := by
+  have hm := mem_fieldsWithDefaultDB cols c hc hd
+  refine ⟨fieldsWithDefaultDB cols, ?_, hm⟩
+  unfold returningCols
+  cases hl : fieldsWithDefaultDB cols with
+  | nil => rw [hl] at hm; cases hm
+  | cons x xs => simp
+
+/-- … and so, after Create through a RETURNING-capable dialector, the in-memory record EQUALS the row that stores it in
+    every column — sent values, literal defaults substituted by gorm, and values generated by the database (`gen`
+    arbitrary, e.g. a random expression that differs per row) — for every schema and every record. -/
+theorem C03_create_mem_eq_row_returning (cols : List CCol) (gen : Nat → Int) (r : CRec) :
+    memAfter true cols gen r = rowOf cols gen r := by
+  unfold memAfter rowOf
+  apply memAfter_go
+  intro c hc hd
+  obtain ⟨l, hl, hm⟩ := C03_defaults_returned_every_key_shape cols c hc hd
+  simp [hl, hm]
+
+/-- LATITUDE, stated: without RETURNING gorm has no channel to learn a database-generated non-key value — the record
+    keeps its zero while the row holds the generated value (model `Item{Code string pk; Rank int default:(abs(-7))}`) -/
+theorem C03_defaults_need_returning :
+    memAfter false [⟨"code", .none⟩, ⟨"rank", .db⟩] (fun _ => 7) [5, 0] = [5, 0] ∧
+    rowOf [⟨"code", .none⟩, ⟨"rank", .db⟩] (fun _ => 7) [5, 0] = [5, 7] ∧
+    memAfter true [⟨"code", .none⟩, ⟨"rank", .db⟩] (fun _ => 7) [5, 0] = [5, 7] := by decide
+
+/-- GENERATED NON-INTEGER KEYS without RETURNING, the negation of finding F25's pattern: the LastInsertId back-fill of a
+    single record (create.go:182-186, guarded only by `PrioritizedPrimaryField.HasDefaultValue`) hands a zero-key record
+    the key of its row whenever the key the database generated for the row IS the insert id the driver reports (an
+    auto-increment integer key); preset keys are kept. -/
+theorem C03_backfill_generated_key_partial (k rowKey lastId : Int) (h : if k = 0 then rowKey = lastId else rowKey = k) :
+    backfillOne k lastId = rowKey := by
+  unfold backfillOne
+  by_cases hk : k = 0
+  · rw [if_pos hk] at h ⊢; exact h.symm
+  · rw [if_neg hk] at h ⊢; exact h.symm
+
+/-- FINDING F25 (kernel-checked witness): no RETURNING, the key is produced by a DB expression (row key 465751923), the
+    driver reports insert id 1 (SQLite's rowid): the guards pass (`hasAutoPk` = HasDefaultValue) and the record receives
+    key 1 — not the key of the row that stores it. -/
+theorem C03_backfill_generated_key_counterexample :
+    createBackfillSlice true true 1 [0] ⟨1, some 1⟩ = [1] ∧ backfillOne 0 1 = 1 ∧ (1 : Int) ≠ 465751923 := by decide
+
+/-- FINDING F26 (kernel-checked witness): no RETURNING, `Create(&[]map{{"id":100001,…},{"id":100011,…}})` through a model
+    with an auto-increment key: the rows keep the preset keys (100001, 100011), LastInsertId is 100011, and the map loop
+    (create.go:128-147) hands out 100010, 100011 — map 0 carries a key that is not its row's.  The negation of the pattern
+    (maps without keys) is `C03_maps_backfill_partial`. -/
+theorem C03_maps_preset_keys_counterexample :
+    (dbInsert 0 [100001, 100011]).1 = [100001, 100011] ∧ lastRowId (dbInsert 0 [100001, 100011]).1 = some 100011 ∧
+    backfillMaps true [true, true] 100011 = [some 100010, some 100011] := by decide
+
 /-- non-vacuity: representable values exist at the boundaries; the partial theorem's hypothesis is satisfiable
     by non-trivial batches -/
 example : representable { base := .int .w8 } (some (.int .i8 (-128))) = true := by decide
